@@ -383,7 +383,7 @@ func inlineLocalClosures(pk *packages.Package, relDir string, newOnes map[string
 				litSrc := string(content[tf.Offset(cv.lit.Pos()):tf.Offset(cv.lit.End())])
 				type ed struct {
 					from, to int
-					text   string
+					text     string
 				}
 				eds := []ed{{tf.Offset(cv.stmt.Pos()), tf.Offset(cv.stmt.End()), ""}}
 				for _, c := range calls {
